@@ -42,6 +42,7 @@ where
         unsafe {
             let cloned_value = match *value {
                 Lazy_::Blackhole(..) => return Err(Error::Message("<<loop>>".into())),
+                Lazy_::Failed(ref err) => return Err(Error::Message(err.clone())),
                 Lazy_::Thunk(ref value) => Lazy_::Thunk(deep_cloner.deep_clone(value)?.unrooted()),
                 Lazy_::Value(ref value) => Lazy_::Value(deep_cloner.deep_clone(value)?.unrooted()),
             };
@@ -69,6 +70,8 @@ enum Lazy_ {
     ),
     Thunk(Value),
     Value(Value),
+    /// The computation failed (or depended on itself), every later `force` reports the error
+    Failed(String),
 }
 
 unsafe impl<T> Trace for Lazy<T> {
@@ -77,6 +80,7 @@ unsafe impl<T> Trace for Lazy<T> {
             Lazy_::Blackhole(..) => (),
             Lazy_::Thunk(value) => mark(value, gc),
             Lazy_::Value(value) => mark(value, gc),
+            Lazy_::Failed(_) => (),
         }
     }
 }
@@ -114,12 +118,24 @@ fn force(
             drop(lazy_lock);
             let vm = vm.root_thread();
             Either::Right(Either::Left(async move {
+                // Records the failure so that later forces (from any thread) report it and wakes up
+                // the threads which are already waiting for the value
+                let fail = |err: String| {
+                    let mut lazy_lock = lazy.value.lock().unwrap();
+                    if let Lazy_::Blackhole(_, ref mut x) = *lazy_lock {
+                        if let Some((sender, _receiver)) = x.take() {
+                            let _ = sender.send(());
+                        }
+                    }
+                    *lazy_lock = Lazy_::Failed(err.clone());
+                    RuntimeResult::Panic(err.into())
+                };
                 match function.call_async(()).await {
                     Ok(value) => {
                         {
                             let value = match lazy.thread.deep_clone_value(&vm, value.get_value()) {
                                 Ok(value) => value,
-                                Err(err) => return RuntimeResult::Panic(err.to_string().into()),
+                                Err(err) => return fail(err.to_string()),
                             };
                             let mut lazy_lock = lazy.value.lock().unwrap();
                             match *lazy_lock {
@@ -138,7 +154,7 @@ fn force(
                         value.vm_push(&mut vm.current_context()).unwrap();
                         RuntimeResult::Return(Pushed::default())
                     }
-                    Err(err) => RuntimeResult::Panic(format!("{}", err).into()),
+                    Err(err) => fail(format!("{}", err)),
                 }
             }))
         }
@@ -160,24 +176,24 @@ fn force(
                 }
                 let ready = opt.as_ref().unwrap().1.clone();
                 let vm = vm.root_thread();
-                Either::Right(Either::Right(
-                    ready
-                        .map(move |_| {
-                            let lazy_lock = lazy.value.lock().unwrap();
-                            match *lazy_lock {
-                                Lazy_::Value(ref value) => {
-                                    vm.current_context().push(value);
-                                    Pushed::default()
-                                }
-                                _ => unreachable!(),
-                            }
-                        })
-                        .map(RuntimeResult::Return),
-                ))
+                Either::Right(Either::Right(ready.map(move |_| {
+                    let lazy_lock = lazy.value.lock().unwrap();
+                    match *lazy_lock {
+                        Lazy_::Value(ref value) => {
+                            vm.current_context().push(value);
+                            RuntimeResult::Return(Pushed::default())
+                        }
+                        Lazy_::Failed(ref err) => RuntimeResult::Panic(err.clone().into()),
+                        _ => unreachable!(),
+                    }
+                })))
             }
             Lazy_::Value(ref value) => {
                 vm.current_context().push(value);
                 Either::Left(future::ready(RuntimeResult::Return(Pushed::default())))
+            }
+            Lazy_::Failed(ref err) => {
+                Either::Left(future::ready(RuntimeResult::Panic(err.clone().into())))
             }
             _ => unreachable!(),
         },
